@@ -21,18 +21,31 @@ def _field_stores(fn, field):
     return out
 
 
+def _null_side(e, truth, names):
+    """Is (e evaluated to truth) the edge on which one of the expressions in names is NULL?"""
+    e = strip_casts(e)
+    if e.get('k') == 'bin' and e['op'] in ('==', '!='):
+        other = e['l'] if is_null_const(e['r']) else (e['r'] if is_null_const(e['l']) else None)
+        if other is not None and expr_str(strip_casts(other)) in names:
+            return (e['op'] == '==') == truth
+        return False
+    if expr_str(e) in names:
+        return not truth
+    return False
+
+
 def lst1(units, R):
-    """A function that stores X->child = V (V not a null constant) also stores V->prev or X->child->prev
-    (the first child's back link designates the last child), unless X is marked as a reference in the same
-    function (borrowed chain)."""
+    """Every path through a store X->child = V (V not a null constant) also passes a store to V->prev or
+    X->child->prev (the first child's back link designates the last child), unless the path establishes that the
+    new child is NULL, releases the container, or X is marked as a reference in the same function."""
     n = 0
     for u, fn in all_functions(units):
         stores = _field_stores(fn, 'child')
         if not stores:
             continue
-        prevs = [(a, l) for (a, l) in _field_stores(fn, 'prev')]
-        prev_bases = {expr_str(strip_casts(l['b'])) for (_a, l) in prevs}
+        prevs = _field_stores(fn, 'prev')
         types = _field_stores(fn, 'type')
+        cfg = None
         for (a, l) in stores:
             if is_null_const(a['r']):
                 continue
@@ -41,16 +54,58 @@ def lst1(units, R):
             V = strip_casts(a['r'])
             Vs = expr_str(V)
             xchild = '%s%schild' % (X, '->' if l['arrow'] else '.')
+            key = 'child:%s=%s' % (xchild, Vs if V.get('k') != 'call' else callee_name(V))
             if any(expr_str(strip_casts(tl['b'])) == X and _mentions_macro(ta, REF_MACRO) for (ta, tl) in types):
                 R.ob('LST1', fn, a, 'child store %s' % expr_str(a), True,
-                     '%s is marked cJSON_IsReference in this function: the chain is borrowed, not owned' % X,
-                     key='child:%s=%s' % (xchild, Vs))
+                     '%s is marked cJSON_IsReference in this function: the chain is borrowed, not owned' % X, key=key)
                 continue
-            ok = Vs in prev_bases or xchild in prev_bases
-            why = 'function stores %s->prev' % (Vs if Vs in prev_bases else xchild) if ok else \
-                'no store to %s->prev or %s->prev: the first child\'s back link no longer designates the last child' % (Vs, xchild)
-            R.ob('LST1', fn, a, 'child store %s restores the tail link' % expr_str(a), ok, why,
-                 key='child:%s=%s' % (xchild, Vs if V.get('k') != 'call' else callee_name(V)))
+            good_bases = {Vs, xchild}
+            # a local that was assigned the same value as V counts as V (head = new_item; ... head->prev)
+            pstores = [(pa, pl) for (pa, pl) in prevs if expr_str(strip_casts(pl['b'])) in good_bases]
+            if not pstores:
+                R.ob('LST1', fn, a, 'child store %s restores the tail link' % expr_str(a), False,
+                     'no store to %s->prev or %s->prev: the first child\'s back link no longer designates the last child' % (Vs, xchild),
+                     key=key)
+                continue
+            cfg = cfg or fn.cfg()
+            S = node_containing(cfg, a).id
+            P = {node_containing(cfg, pa).id for (pa, _pl) in pstores}
+            # releasing the container is as good as fixing it
+            for nd in cfg.nodes:
+                if nd.expr is None:
+                    continue
+                for c in walk(nd.expr):
+                    if c.get('k') == 'call' and callee_name(c) == 'cJSON_Delete' and c['args'] and \
+                            expr_str(strip_casts(c['args'][0])) == X:
+                        P.add(nd.id)
+            names = {Vs, xchild, X}
+
+            def reach(start, forward):
+                seen = {start}
+                work = [start]
+                adj = cfg.succ if forward else cfg.pred
+                while work:
+                    x = work.pop()
+                    for (y, lab) in adj[x]:
+                        src = x if forward else y
+                        if lab is not None and lab[0] in ('T', 'F') and _null_side(lab[1], lab[0] == 'T', names):
+                            continue
+                        if y in P or y in seen:
+                            continue
+                        seen.add(y)
+                        work.append(y)
+                return seen
+            if S in P:
+                ok = True
+            else:
+                before = cfg.entry.id in reach(S, False)
+                after = cfg.exit.id in reach(S, True)
+                ok = not (before and after)
+            R.ob('LST1', fn, a, 'child store %s restores the tail link on every path' % expr_str(a), ok,
+                 'every path through the store passes a store to %s->prev (or the child is NULL / the container is released)'
+                 % (Vs if V.get('k') != 'call' else xchild) if ok else
+                 'a path through this store reaches the return without storing %s->prev: the first child\'s back link can be stale'
+                 % xchild, key=key)
     R.floor('LST1', 'non-null child stores', n, 15)
 
 
